@@ -745,6 +745,11 @@ class IteratorQueue(IterableQueue[_ValueT]):
         _release_and_notify(
             self._states_lock, notify=self._dequeue_lock, notify_all=True
         )
+        # Also wake up the enqueuers blocked on a full queue, e.g., when another
+        # enqueuer failed and no consumer will ever dequeue again.
+        _release_and_notify(
+            self._states_lock, notify=self._enqueue_lock, notify_all=True
+        )
         logging.debug(
             'chainable: %s', f'"{self.name}" enqueue done, notify all'
         )
